@@ -41,4 +41,33 @@ TEXT = {
         "note": "Trusted: Lean kernel; transcription of storehandler.go; encoding/json; mockstore; element equality = byte equality of canonical JSON (C18 covers Value.Equal). "
                 "A failing Transformer.Transform is not modelled.",
     },
+    "C04": {
+        "text": "Lean 4 theorems (Props/C04.lean) over the model of processRequest/executeHandler where a handler is an ARBITRARY script of responder, event, meta, "
+                "timeout, parse and panic actions: exactly one response is published on the reply subject for every configuration, request type, payload and script, "
+                "except for an access request on a pattern without access handler, which stays silent; no prefix of the execution ever contains two responses; a panic "
+                "is absorbed. Tie: thousands of generated (request, handler, script) cases run on a real Service over a recording connection; the full effect log is "
+                "compared with the model and the response count is judged by the Lean specification.",
+        "note": "Trusted: Lean kernel; transcription of request.go/resource.go/service.go into Model/Req.lean; encoding/json (payloads canonicalised); the script interpreter in the harness. Handlers that never return are excluded; panic(nil) has Go >= 1.21 semantics.",
+    },
+    "C05": {
+        "text": "Lean 4 theorems (Props/C05.lean): subject splitting for every resource name (dots and method-like tokens included); the handler decision table stated "
+                "outright (named method, else *, new prefers the new handler); notFound / methodNotFound / internalError when nothing can be invoked; the handler sees the "
+                "request fields verbatim; *Error values passed to Error or panicked are returned verbatim, any other panic or a missing reply is system.internalError. "
+                "Tie as C04; the Lean specification judges which handler ran, what it saw and the response code.",
+        "note": "Trusted: Lean kernel; transcription of request.go/resource.go/service.go into Model/Req.lean; encoding/json (payloads canonicalised); the script interpreter in the harness. Handlers that never return are excluded; panic(nil) has Go >= 1.21 semantics. JSON decoding of the request payload is encoding/json; the model receives the decoded fields.",
+    },
+    "C07": {
+        "text": "Lean 4 theorems (Props/C07.lean): every message process publishes, for every script, is built by a documented constructor on a documented subject "
+                "(reply: pre-response or exactly one of result/resource/error, meta only for HTTP requests; event.<rid>.<name>; conn.<cid>.token); unmarshalable values give "
+                "system.internalError responses and silent events; each event type carries its documented fields. Tie as C04; additionally every message the real service "
+                "publishes is parsed by the Lean JSON reader and judged by the Lean conformance predicate (subject grammar, member sets, meta only when HTTP).",
+        "note": "Trusted: Lean kernel; transcription of request.go/resource.go/service.go into Model/Req.lean; encoding/json (payloads canonicalised); the script interpreter in the harness. Handlers that never return are excluded; panic(nil) has Go >= 1.21 semantics. Connection ids that are not valid name parts are outside the property.",
+    },
+    "C08": {
+        "text": "Lean 4 theorems (Props/C08.lean): for change/add/remove/create/delete/custom the effects of one call are [apply?] ++ [publish] ++ listeners in registration order; "
+                "a failing apply handler, an apply handler reporting no change, or an invalid call publishes nothing and runs no listener; the log of a script is the "
+                "concatenation of its steps' effects (program order). Tie as C04: apply handlers, the connection and listeners feed one ordered log which is compared with "
+                "the model and judged by the Lean order specification.",
+        "note": "Trusted: Lean kernel; transcription of request.go/resource.go/service.go into Model/Req.lean; encoding/json (payloads canonicalised); the script interpreter in the harness. Handlers that never return are excluded; panic(nil) has Go >= 1.21 semantics. Event values that cannot be marshalled are outside the property (nothing is published but listeners run; documented in DESIGN.md).",
+    },
 }
